@@ -28,7 +28,7 @@ ASSUMPTIONS = [
 SHARDS = {"quick": 16, "thorough": 16}
 HASHSEEDS = ["0", "7"]
 MINIMUMS = {
-    "quick": {"distinct_nontrivial": 1500, "pairs_compared": 2500, "edit:class-edit": 200, "edit:meta-content": 80, "edit:meta-insert": 80, "edit:explicit-default": 200, "edit:ignored-param": 200, "edit:env": 60, "controls_changed": 200},
+    "quick": {"distinct_nontrivial": 1500, "pairs_compared": 2500, "edit:class-edit": 200, "edit:class-edit-values": 200, "edit:meta-content": 80, "edit:meta-insert": 80, "edit:explicit-default": 200, "edit:ignored-param": 200, "edit:env": 60, "controls_changed": 200},
     "thorough": {"distinct_nontrivial": 50000, "pairs_compared": 90000, "edit:class-edit": 8000, "edit:meta-content": 2500, "edit:meta-insert": 2500, "edit:explicit-default": 8000, "edit:ignored-param": 8000, "edit:env": 1500, "controls_changed": 8000},
 }
 N = {"quick": 700, "thorough": 24000}
@@ -436,6 +436,26 @@ def explore(ctx, recipe, rng):
         ctx.case({"r": recipe["steps"], "e": "class-edit"}, nontrivial=len(sh.nodes) >= 2)
     except RecursionError:
         pass
+
+    # class edit + values: the added ignored parameters (a plain Meta, and Meta / Option declared together with a second
+    # annotation) are also given non-default values right after each node is created.  Nodes of the classes that serve as
+    # configuration-typed defaults are left alone: changing an ignored parameter there is known finding
+    # cfg-default-equal-modulo-ignored, which is exercised on its own by the edit 'cfgdefault-ignored'.
+    steps2 = []
+    nset = 0
+    for st in recipe["steps"]:
+        steps2.append(st)
+        if st[0] == "new" and st[2] not in ("Leaf", "LeafB", "GenLeaf"):
+            steps2 += [["set", st[1], "zz_m", "changed"], ["set", st[1], "zz_am", 9], ["set", st[1], "zz_ao", "p"]]
+            nset += 1
+    if nset:
+        r3 = {"steps": steps2, "root": recipe["root"], "kind": recipe["kind"]}
+        try:
+            _, ids3 = ids_of(r3, "xvmodels.zoo2")
+            ctx.count("edit:class-edit-values")
+            compare(ctx, recipe, base, {"module": "xvmodels.zoo2", "set": ["zz_m", "zz_am", "zz_ao"]}, ids3, ["class-edit-values"])
+        except RecursionError:
+            pass
 
     # dependencies, launcher, workspace, run mode (tasks only)
     if is_task:
